@@ -188,7 +188,15 @@ class Act(object):
 
 
             if ioinits:
-                iois = actor._initio(ioinits)  # .inode may be changed in here
+                try:
+                    iois = actor._initio(ioinits)  # .inode may be changed in here
+                except TypeError as ex:  # ioinits do not match legacy _prepio signature
+                    msg = "ResolveError: Bad ioinits for actor. {0}".format(ex)
+                    raise excepting.ResolveError(msg,
+                                                 actor.name,
+                                                 self,
+                                                 self.human,
+                                                 self.count)
                 if iois:
                     for key, ioi in iois.items():
                         if key == "inode":  # compute the final inode
